@@ -333,7 +333,7 @@ def c01_roundtrip(seed, tier):
             if c2 == "ok" and read_file(outp) != coll_src:
                 R.fail("roundtrip-output-differs-from-source", "cli-compress truncated-hash-collision F:16 hl=4 src=%s" % digest(coll_src))
         for src, cfg_args, cfg_tok, compression, level in special:
-            for writer in (("cli",) if len(src) > (1 << 20) else ("cli", "lib")):
+            for writer in ("cli", "lib"):
                 desc = "%s-compress special %s %s/%s src=%s" % (writer, cfg_tok, compression, level, digest(src))
                 if writer == "cli":
                     cls, arch, se, apath = compress_cli(W, src, cfg_args, 16, compression, level, 4)
@@ -1664,6 +1664,22 @@ def c02_seeds(seed, tier):
                                "source" if j % 2 == 0 else "edited", k, nw, cfg_tok, digest(src)))
                 elif cls not in ("ok", "err"):
                     R.fail("clone-with-seeds-%s" % cls, "transient write fault at write %d cfg=%s src=%s" % (k, cfg_tok, digest(src)))
+        # chunks larger than one write call of the runtime takes (2 MiB), delivered by a seed: a file, stdin
+        bs = 3 << 20
+        bsrc = rng.randbytes(bs) + rng.randbytes((1 << 20) + 5)
+        barch, bapath, bcfg, bhl = make_archive(W, rng, bsrc, cfg=(["--fixed-size", str(bs)], "F:%d" % bs))
+        for how in ("file", "stdin"):
+            outp = W.fresh(".out")
+            cls, rc, so, se = clone_cli(W, bapath, outp, seeds=[W.write(bsrc, ".seed")] if how == "file" else [],
+                                        stdin_seed=bsrc if how == "stdin" else None)
+            R.stat("clones")
+            R.stat("seed_delivers_a_chunk_larger_than_one_write_call")
+            if cls != "ok":
+                R.fail("clone-with-seeds-%s" % cls, "cli-clone 3 MiB fixed chunks, the source itself as seed (%s)" % how)
+            elif read_file(outp) != bsrc:
+                R.fail("seeds-changed-the-output", "cli-clone 3 MiB fixed chunks, the source itself as seed (%s)" % how)
+            os.unlink(outp)
+        del bsrc
         # dedicated C06 rows: output already equal to the source, regular and block device
         for blockdev in (False, True):
             src = rng.randbytes(3000)
@@ -2044,6 +2060,10 @@ def c17_conforming(seed, tier):
                 w = rng.choice([1, 4, 16, 64])
                 mn = rng.choice([0, 4, 100])
                 cfg = (algo, rng.randrange(1, 25), mn, max(mn, w) + rng.randrange(0, 1000), w)
+                if algo == 1 and rng.random() < 0.35:
+                    # RollSum needs no relation between window and maximum chunk size (bita's own defaults give 64 > max for small maxima)
+                    cfg = (1, cfg[1], mn, mn + rng.randrange(1, 48), rng.choice([64, 100, 5000]))
+                    R.stat("rollsum_window_above_max_chunk_size")
             use_brotli = rng.random() < 0.4
             pieces = pyfmt.chunks_of(src, sizes)
             table = brotli_table(W, sorted(set(pieces)), 5) if use_brotli else {}
@@ -2267,6 +2287,8 @@ def c15_cli(seed, tier):
                 mut = 23
             elif i in (10, 11):
                 mut = 24
+            elif i in (12, 13, 14):
+                mut = 100 + i
             if mut == 0:
                 d["rebuild_order"] = d["rebuild_order"] + [len(d["chunk_descriptors"]) + rng.choice([0, 1, 1000, 2 ** 32 - 1])]; name = "rebuild-index-out-of-range"
             elif mut == 1:
@@ -2316,6 +2338,14 @@ def c15_cli(seed, tier):
             elif i == 4:
                 p["chunking_algorithm"] = 1; p["rolling_hash_window_size"] = 20000; p["max_chunk_size"] = 2 ** 20
                 p["min_chunk_size"] = 0; p["chunk_filter_bits"] = 5; name = "rollsum-window-20000"; mut = 99
+            if mut == 112:
+                # descriptors that no rebuild entry refers to: an empty source with chunks in the archive
+                d["rebuild_order"] = []; d["source_total_size"] = 0; name = "descriptors-but-empty-rebuild-order"
+            elif mut == 113 and len(d["chunk_descriptors"]) >= 2:
+                # only the first descriptor is used
+                d["rebuild_order"] = [0]; d["source_total_size"] = d["chunk_descriptors"][0]["source_size"]; name = "only-one-descriptor-referenced"
+            elif mut == 114:
+                d["rebuild_order"] = []; name = "empty-rebuild-order-with-a-declared-size"
             if mut == 22 and len(d["chunk_descriptors"]) >= 2:
                 # chunk_data_offset + archive_offset fits 64 bits, + archive_size does not
                 j = rng.randrange(len(d["chunk_descriptors"]))
@@ -2409,6 +2439,23 @@ def c15_cli(seed, tier):
                 R.fail("server-behaviour-%s" % cls, "bita clone with server script %r :: %s" % (script, se.decode(errors="replace")[-160:].replace("\n", "|")))
             elif cls == "ok" and read_file(outp) != base_src:
                 R.fail("server-behaviour-wrong-output", "script %r" % (script,))
+        # chunk requests that fail before any response head arrives (the header was served): once or for good,
+        # with no retry or one, default and minimal pipelining - an error, never a panic
+        for script, default, retries, buffered in ((["full", "full", "refuse"], "full", "0", None), (["full", "full"], "refuse", "0", None),
+                                                   (["full", "full"], "refuse", "1", None), (["full", "full"], "refuse", "0", "1"),
+                                                   (["full", "full", "empty"], "refuse", "0", None), (["full", "full"], ("status", 503), "0", None)):
+            srv = httpd.Server(arch, script=list(script), default=default)
+            outp = W.fresh(".out")
+            extra = ["--http-retry-count", retries] + (["--buffered-chunks", buffered] if buffered else [])
+            cls, rc, so, se = clone_cli(W, srv.url(), outp, extra=extra, timeout=60)
+            srv.close()
+            R.stat("server_scripts")
+            R.stat("server_scripts_failing_chunk_requests")
+            if cls not in ("ok", "err"):
+                R.fail("server-behaviour-%s" % cls, "bita clone %s with server script %r then %r :: %s" % (
+                    " ".join(extra), script, default, se.decode(errors="replace")[-160:].replace("\n", "|")))
+            elif cls == "ok" and read_file(outp) != base_src:
+                R.fail("server-behaviour-wrong-output", "script %r then %r" % (script, default))
         # decompression bombs: a stored chunk of a few hundred bytes that expands far beyond the source size
         # declared for it (the dictionary is consistent otherwise and the header checksum is valid).  Memory
         # must follow the declared chunk size, not what the compressed stream chooses to produce.
